@@ -49,12 +49,12 @@ def _(query_context: Obj['rbql_engine.RBQLContext'], sort_key: Opt[Key], out_fie
     modifies(region(query_context.writer), contents(out_fields))
 
 
-@contract('gen:select_simple', name='C01.loop.select_simple', props=['C01', 'C14', 'C15', 'C06'])
+@contract('gen:select_simple', name='C01.loop.select_simple', props=['C01', 'C14', 'C15', 'C06'], subst={'HAS_WHERE': True, 'HAS_SORT': True})
 def _(query_context: Obj['rbql_engine.RBQLContext'], user_namespace: Opaque, LIKE: Opaque, UNNEST: Cls['rbql_engine.compile_and_run.UNNEST'],
       ANY_VALUE: Opaque, MIN: Opaque, MAX: Opaque, COUNT: Opaque, SUM: Opaque, AVG: Opaque, VARIANCE: Opaque, MEDIAN: Opaque,
       ARRAY_AGG: Opaque, mad_max: Opaque, mad_min: Opaque, mad_sum: Opaque, select_unnested: Fn['rbql_engine.compile_and_run.select_unnested']):
     requires(ctx_inv(query_context), 'ctx')
-    requires(query_context.writer.sorted_iface, 'variant_has_order_by')
+    requires(query_context.writer.sorted_iface == HAS_SORT, 'variant_order_by')
     requires(query_context.aggregation_stage == 0, 'not_aggregate')
     requires(query_context.input_iterator.pos == 0, 'iterator_fresh')
     requires(not query_context.writer.finished and not query_context.writer.refused, 'writer_open')
@@ -62,27 +62,113 @@ def _(query_context: Obj['rbql_engine.RBQLContext'], user_namespace: Opaque, LIK
               and ctx_inv(query_context) and query_context.aggregation_stage == 0
               and query_context.input_iterator.rows == old(query_context.input_iterator.rows), 'config')
     invariant(0, NR == query_context.input_iterator.pos and 0 <= NR and NR <= len(query_context.input_iterator.rows), 'NR_is_position')
-    invariant(0, query_context.writer.offered == old(query_context.writer.offered) + sel_out(query_context.input_iterator.rows, NR, True), 'offered')
+    invariant(0, query_context.writer.offered == old(query_context.writer.offered) + sel_out(query_context.input_iterator.rows, NR, HAS_WHERE), 'offered')
     invariant(0, stop_flag == query_context.writer.refused and not query_context.writer.finished, 'stop_flag')
-    invariant(0, forall(Int, lambda k: implies(1 <= k and k <= NR, not rec_fail(query_context.input_iterator.rows[k - 1], k, True, True))), 'no_failure_so_far')
+    invariant(0, forall(Int, lambda k: implies(1 <= k and k <= NR, not rec_fail(query_context.input_iterator.rows[k - 1], k, HAS_WHERE, HAS_SORT))), 'no_failure_so_far')
     # C01: exactly one projected record per record passing WHERE, in input order, for the records consumed
-    ensures(query_context.writer.offered == old(query_context.writer.offered) + sel_out(query_context.input_iterator.rows, query_context.input_iterator.pos, True), 'output_is_projection_of_matching_records')
+    ensures(query_context.writer.offered == old(query_context.writer.offered) + sel_out(query_context.input_iterator.rows, query_context.input_iterator.pos, HAS_WHERE), 'output_is_projection_of_matching_records')
     ensures(query_context.writer.refused or query_context.input_iterator.pos == len(query_context.input_iterator.rows), 'all_input_consumed_unless_refused')
     ensures(not query_context.writer.finished, 'typestate')
     # C14: a failing expression is reported for the first offending record, nothing is offered for it
     raises('rbql_engine.RbqlRuntimeError',
-           rec_fail(query_context.input_iterator.rows[query_context.input_iterator.pos - 1], query_context.input_iterator.pos, True, True)
-           and forall(Int, lambda k: implies(1 <= k and k < query_context.input_iterator.pos, not rec_fail(query_context.input_iterator.rows[k - 1], k, True, True)))
-           and query_context.writer.offered == old(query_context.writer.offered) + sel_out(query_context.input_iterator.rows, query_context.input_iterator.pos - 1, True)
+           rec_fail(query_context.input_iterator.rows[query_context.input_iterator.pos - 1], query_context.input_iterator.pos, HAS_WHERE, HAS_SORT)
+           and forall(Int, lambda k: implies(1 <= k and k < query_context.input_iterator.pos, not rec_fail(query_context.input_iterator.rows[k - 1], k, HAS_WHERE, HAS_SORT)))
+           and query_context.writer.offered == old(query_context.writer.offered) + sel_out(query_context.input_iterator.rows, query_context.input_iterator.pos - 1, HAS_WHERE)
            and str_contains(exc_msg(), 'record ' + str_of_int(query_context.input_iterator.pos)), 'names_first_offending_record')
     raises('rbql_engine.RbqlParsingError',
-           rec_fail(query_context.input_iterator.rows[query_context.input_iterator.pos - 1], query_context.input_iterator.pos, True, True)
-           and query_context.writer.offered == old(query_context.writer.offered) + sel_out(query_context.input_iterator.rows, query_context.input_iterator.pos - 1, True), 'parsing_error_passes_through')
+           rec_fail(query_context.input_iterator.rows[query_context.input_iterator.pos - 1], query_context.input_iterator.pos, HAS_WHERE, HAS_SORT)
+           and query_context.writer.offered == old(query_context.writer.offered) + sel_out(query_context.input_iterator.rows, query_context.input_iterator.pos - 1, HAS_WHERE), 'parsing_error_passes_through')
     loop_types(0, record_a=Opt[List[Cell]], NF=Int, out_fields=List[Cell], sort_key=Opt[Key], a1=Cell, a3=Cell, aNR=Int, a=Obj['rbql_engine.RBQLRecord'], key=Opaque, star_fields=List[Cell])
     modifies(query_context, query_context.input_iterator, region(query_context.writer))
+
+
+@contract('gen:select_simple_nowhere', name='C01.loop.select_simple_nowhere', props=['C01', 'C14', 'C15', 'C06'], like='gen:select_simple', subst={'HAS_WHERE': False, 'HAS_SORT': False})
+def _():
+    pass
 
 
 @trusted('rbql_engine.select_aggregated', name='C03.select_aggregated', trusted='PENDING: contract not yet proved against the body (aggregation path); callers only rely on its precondition')
 def _(query_context: Obj['rbql_engine.RBQLContext'], key: Opaque, transparent_values: List[Cell]):
     requires(query_context.aggregation_stage > 0, 'aggregate_query')
     modifies(anything())
+
+
+# ---------------------------------------------------------------- UNNEST (C01)
+classdef('rbql_engine.compile_and_run.UNNEST')
+
+
+@contract('rbql_engine.compile_and_run.UNNEST.__init__', name='C01.unnest.ctor', props=['C01'])
+def _(self: Obj['rbql_engine.compile_and_run.UNNEST'], vals: List[Cell], *, query_context: Obj['rbql_engine.RBQLContext']):
+    ensures(is_none(old(query_context.unnest_list)) and same(query_context.unnest_list, vals), 'captures_list_once')
+    raises('rbql_engine.RbqlParsingError', not is_none(old(query_context.unnest_list)) and same(query_context.unnest_list, old(query_context.unnest_list)), 'second_unnest_rejected')
+    modifies(field(query_context, 'unnest_list'))
+
+
+@contract('rbql_engine.compile_and_run.select_unnested', name='C01.select_unnested', props=['C01', 'C15', 'C06'])
+def _(sort_key: Opt[Key], folded_fields: List[Cell], *, query_context: Obj['rbql_engine.RBQLContext'], UNNEST: Cls['rbql_engine.compile_and_run.UNNEST']) -> Bool:
+    requires(ctx_inv(query_context), 'ctx')
+    requires(implies(query_context.writer.sorted_iface, not is_none(sort_key)), 'sort_key_present')
+    requires(not query_context.writer.finished and not query_context.writer.refused, 'writer_open')
+    requires(not is_none(query_context.unnest_list), 'unnest_list_captured')
+    requires(first_marker(contents(folded_fields), 0) >= 0, 'marker_present')
+    requires(not is_offered(query_context.unnest_list) and not is_offered(folded_fields) and not same(query_context.unnest_list, folded_fields), 'lists_not_owned_by_writer')
+    local_types(unnest_pos=Opt[Int])
+    loop_types(0, i=Int, trans_value=Cell, unnest_pos=Opt[Int])
+    invariant(0, 0 <= __i and __i <= len(folded_fields) and is_none(unnest_pos), 'idx')
+    invariant(0, first_marker(contents(folded_fields), 0) == first_marker(contents(folded_fields), __i), 'no_marker_before')
+    loop_types(1, v=Cell, out_fields=List[Cell])
+    invariant(1, 0 <= __i and __i <= len(query_context.unnest_list), 'idx')
+    invariant(1, same(query_context.writer, old(query_context.writer)) and same(query_context.unnest_list, old(query_context.unnest_list))
+              and ctx_inv(query_context) and not is_none(query_context.unnest_list)
+              and contents(query_context.unnest_list) == old(contents(query_context.unnest_list))
+              and contents(folded_fields) == old(contents(folded_fields))
+              and not is_offered(query_context.unnest_list) and not is_offered(folded_fields), 'config')
+    invariant(1, not is_none(unnest_pos) and opt_val(unnest_pos) == first_marker(contents(folded_fields), 0)
+              and 0 <= opt_val(unnest_pos) and opt_val(unnest_pos) < len(folded_fields), 'pos')
+    invariant(1, query_context.writer.offered == old(query_context.writer.offered)
+              + unnest_rows(contents(folded_fields)[:opt_val(unnest_pos)], contents(folded_fields)[opt_val(unnest_pos) + 1:], contents(query_context.unnest_list), __i), 'one_record_per_element')
+    invariant(1, not query_context.writer.refused and not query_context.writer.finished, 'writer_open')
+    invariant(1, len(query_context.writer.offered) == len(old(query_context.writer.offered)) + __i, 'count')
+    # one output record per list element, in order, each a fresh list; stops at the first refusal
+    ensures(query_context.writer.offered == old(query_context.writer.offered)
+            + unnest_rows(old(contents(folded_fields))[:first_marker(old(contents(folded_fields)), 0)],
+                          old(contents(folded_fields))[first_marker(old(contents(folded_fields)), 0) + 1:], old(contents(query_context.unnest_list)),
+                          len(query_context.writer.offered) - len(old(query_context.writer.offered))), 'one_record_per_element')
+    ensures(len(query_context.writer.offered) - len(old(query_context.writer.offered)) <= len(old(contents(query_context.unnest_list)))
+            and (query_context.writer.refused or len(query_context.writer.offered) - len(old(query_context.writer.offered)) == len(old(contents(query_context.unnest_list)))), 'complete_unless_refused')
+    ensures(result == (not query_context.writer.refused) and not query_context.writer.finished, 'result')
+    ensures(contents(folded_fields) == old(contents(folded_fields)), 'folded_untouched')
+    raises('AssertionError', False, 'marker_always_found')
+    modifies(region(query_context.writer))
+
+
+@contract('gen:select_unnest', name='C01.loop.select_unnest', props=['C01', 'C14', 'C15', 'C06'])
+def _(query_context: Obj['rbql_engine.RBQLContext'], user_namespace: Opaque, LIKE: Opaque, UNNEST: Cls['rbql_engine.compile_and_run.UNNEST'],
+      ANY_VALUE: Opaque, MIN: Opaque, MAX: Opaque, COUNT: Opaque, SUM: Opaque, AVG: Opaque, VARIANCE: Opaque, MEDIAN: Opaque,
+      ARRAY_AGG: Opaque, mad_max: Opaque, mad_min: Opaque, mad_sum: Opaque, select_unnested: Fn['rbql_engine.compile_and_run.select_unnested']):
+    requires(ctx_inv(query_context), 'ctx')
+    requires(query_context.writer.sorted_iface, 'variant_order_by')
+    requires(query_context.aggregation_stage == 0, 'not_aggregate')
+    requires(query_context.input_iterator.pos == 0, 'iterator_fresh')
+    requires(not query_context.writer.finished and not query_context.writer.refused, 'writer_open')
+    assumes(forall(RecV, Int, lambda r, k: not is_unnest_marker(H_E1(r, k)) and not is_unnest_marker(H_E2(r, k))), 'A-ORACLE: only the explicit UNNEST(...) call produces an UNNEST marker')
+    invariant(0, same(query_context.input_iterator, old(query_context.input_iterator)) and same(query_context.writer, old(query_context.writer))
+              and ctx_inv(query_context) and query_context.aggregation_stage == 0
+              and query_context.input_iterator.rows == old(query_context.input_iterator.rows), 'config')
+    invariant(0, NR == query_context.input_iterator.pos and 0 <= NR and NR <= len(query_context.input_iterator.rows), 'NR_is_position')
+    invariant(0, implies(not stop_flag, query_context.writer.offered == old(query_context.writer.offered) + usel_out(query_context.input_iterator.rows, NR)), 'offered')
+    invariant(0, stop_flag == query_context.writer.refused and not query_context.writer.finished, 'stop_flag')
+    invariant(0, forall(Int, lambda k: implies(1 <= k and k <= NR, not urec_fail(query_context.input_iterator.rows[k - 1], k, True))), 'no_failure_so_far')
+    # C01 (UNNEST): when the writer never refuses, the output is exactly one record per list element of every matching record
+    ensures(implies(not query_context.writer.refused, query_context.writer.offered == old(query_context.writer.offered) + usel_out(query_context.input_iterator.rows, query_context.input_iterator.pos)
+                    and query_context.input_iterator.pos == len(query_context.input_iterator.rows)), 'one_record_per_list_element')
+    ensures(not query_context.writer.finished, 'typestate')
+    raises('rbql_engine.RbqlRuntimeError',
+           urec_fail(query_context.input_iterator.rows[query_context.input_iterator.pos - 1], query_context.input_iterator.pos, True)
+           and forall(Int, lambda k: implies(1 <= k and k < query_context.input_iterator.pos, not urec_fail(query_context.input_iterator.rows[k - 1], k, True)))
+           and query_context.writer.offered == old(query_context.writer.offered) + usel_out(query_context.input_iterator.rows, query_context.input_iterator.pos - 1)
+           and str_contains(exc_msg(), 'record ' + str_of_int(query_context.input_iterator.pos)), 'names_first_offending_record')
+    raises('rbql_engine.RbqlParsingError',
+           urec_fail(query_context.input_iterator.rows[query_context.input_iterator.pos - 1], query_context.input_iterator.pos, True), 'parsing_error_passes_through')
+    loop_types(0, record_a=Opt[List[Cell]], NF=Int, out_fields=List[Cell], sort_key=Opt[Key], a1=Cell, a3=Cell, aNR=Int, a=Obj['rbql_engine.RBQLRecord'], key=Opaque, star_fields=List[Cell])
+    modifies(query_context, query_context.input_iterator, region(query_context.writer))
